@@ -24,7 +24,7 @@ def run(ctx):
     else:
         cfg = "ErrWrap_quick.cfg" if ctx.tier == "quick" else "ErrWrap_thorough.cfg"
         ctx.tlc("sem", "ErrWrap", cfg, cases_path=cases, timeout_s=600,
-                workers=min(8, int(os.environ.get("VERIF_TLC_WORKERS") or 8)), coverage=(ctx.tier == "thorough"))
+                workers=min(8, int(os.environ.get("VERIF_TLC_WORKERS") or 8)))
     h = ctx.build_harness("semh")
     res = ctx.run_harness(h, ["errwrap"], cases, timeout_s=1800)
     ctx.tally(res, cases_path=cases)
